@@ -151,6 +151,31 @@ func rarePoints(r *rng, perClass int) []pt {
 			}
 		}
 	}
+	// (e) a coordinate that fits 27..33 bits (between one 26-bit field word and one machine word): shortcuts that load
+	//     small integers without splitting them into words leave word 0 above its mask
+	for _, bits := range []uint{27, 30, 32, 33} {
+		for pass := 0; pass < 2; pass++ {
+			for i := 0; i < 300; i++ {
+				c := new(big.Int).SetBytes(r.bytes(5))
+				c.Rsh(c, 40-bits)
+				c.SetBit(c, int(bits-1), 1)
+				if pass == 0 { // y small
+					v := new(big.Int).Mod(new(big.Int).Sub(new(big.Int).Mul(c, c), big.NewInt(7)), curveP)
+					if p, ok := fromCube(v); ok {
+						out = append(out, pt{p.x, c})
+						break
+					}
+				} else { // x small
+					w := new(big.Int).Mod(new(big.Int).Add(new(big.Int).Exp(c, three, curveP), big.NewInt(7)), curveP)
+					y := new(big.Int).Exp(w, sqrtExp, curveP)
+					if new(big.Int).Mod(new(big.Int).Mul(y, y), curveP).Cmp(w) == 0 {
+						out = append(out, pt{c, y})
+						break
+					}
+				}
+			}
+		}
+	}
 	// (d) a coordinate in the window [N, P) (where N and P are easily confused): y = N + t with y^2 - 7 a cube,
 	//     x = N + t with x^3 + 7 a square
 	{
